@@ -320,6 +320,19 @@ class SubscribableMixin:
         self._log("put", value=value, nsubs=len(self.subs))
         for f in list(self.subs):
             self._notify_one(f)
+            if hasattr(f, "_should_suspend") and hasattr(f, "tripped"):
+                # observation point for the suspender properties: state after this value
+                self.sim.record(
+                    "sus",
+                    sig=self.name,
+                    cls=type(f).__name__,
+                    value=value,
+                    tripped=bool(f.tripped),
+                    ss=bool(f._should_suspend(value)),
+                    sr=bool(f._should_resume(value)),
+                    has_ev=f._ev is not None,
+                    installed=f.RE is not None,
+                )
 
     def get(self):
         return self._value
